@@ -4,7 +4,7 @@
     are replayed by the checks on every run). *)
 From Coq Require Import List Ascii String ZArith NArith Bool.
 From Shexer Require Import Lib.PyStr Lib.Dict Lib.Bin64 Gen.Consts Spec.Rdf Model.Tracker Model.Profiler
-  Model.Tokens Model.Freq Model.FreqInst Model.Shexing Model.SerialShexc Model.Run Model.RunMap
+  Model.Tokens Model.Freq Model.FreqInst Model.Shexing Model.ShexingFix Model.SerialShexc Model.Run Model.RunMap
   Proofs.ShexKeys Proofs.RunWitness.
 From Shexer Require Model.Selectors.
 Import ListNotations.
@@ -60,12 +60,26 @@ Example m_instances :
   Selectors.OOk [(ex "s0", [lab_S]); (ex "s1", [lab_S]); (ex "s2", [lab_S]); (ex "t0", [lab_T])].
 Proof. vm_compute. reflexivity. Qed.
 
-(** C12-F2 / C02-F2 (keep_less_specific off, remove_empty_shapes on): at 1/3 the
-    reference @T wins the node-kind merge of ex:p and is deleted with the empty
-    shape T; at 1/2 the plain kind IRI is kept *)
+(** Both orders of ClassShexer's stages are covered: a lemma about the old order
+    carries the premise [c_clean_before_merge = false], one about the new order
+    [= true]; the generated constant decides which of the two is not vacuous.
+    [flag_or tac]: the premise is absurd, or [tac] proves the goal by evaluation. *)
+Ltac flag_or tac := let E := fresh "E" in intros E; first [ (vm_compute in E; discriminate E) | tac ].
+
+(** C12-F2 / C02-F2 (keep_less_specific off, remove_empty_shapes on), OLD order: at
+    1/3 the reference @T wins the node-kind merge of ex:p and is deleted with the
+    empty shape T; at 1/2 the plain kind IRI is kept *)
 Example m_keys_third :
+  c_clean_before_merge = false ->
   map_keys (with_kls false base_rcfg) (b_ratio 1 3) = Some [(lab_S, [(false, ex "name", VLit c_STRING_TYPE)])].
-Proof. vm_compute. reflexivity. Qed.
+Proof. flag_or ltac:(vm_compute; reflexivity). Qed.
+
+(** NEW order (notes/proposed_fixes/C04-choice-prune.diff): the key is there at 1/3 too *)
+Example m_keys_third_fixed :
+  c_clean_before_merge = true ->
+  map_keys (with_kls false base_rcfg) (b_ratio 1 3) =
+  Some [(lab_S, [(false, ex "name", VLit c_STRING_TYPE); (false, ex "p", VNonLit)])].
+Proof. flag_or ltac:(vm_compute; reflexivity). Qed.
 
 Example m_keys_half :
   map_keys (with_kls false base_rcfg) (b_ratio 1 2) =
@@ -78,11 +92,20 @@ Example m_keys_third_keep :
   Some [(lab_S, [(false, ex "name", VLit c_STRING_TYPE); (false, ex "p", VNonLit)]); (lab_T, [])].
 Proof. vm_compute. reflexivity. Qed.
 
-(** C04-F1: disjunctions enabled: 'ex:p IRI OR @sh:T' next to the empty shape T *)
+(** C04-F1, OLD order: disjunctions enabled: 'ex:p IRI OR @sh:T' next to the empty shape T *)
 Example m_choice_prune :
+  c_clean_before_merge = false ->
   run_shapes_map BAlg (with_or false true base_rcfg) m_orc m_spec thr0 m_graph = inr (MERun REType) /\
   run_shexc_map BAlg (with_or false true base_rcfg) m_orc m_spec thr0 m_graph = inr (MERun REType).
-Proof. split; vm_compute; reflexivity. Qed.
+Proof. flag_or ltac:(split; vm_compute; reflexivity). Qed.
+
+(** NEW order: the same run succeeds; the candidate @sh:T goes before the merge, 'ex:p IRI' is left *)
+Example m_choice_fixed :
+  c_clean_before_merge = true ->
+  map_keys (with_or false true base_rcfg) thr0 =
+  Some [(lab_S, [(false, ex "name", VLit c_STRING_TYPE); (false, ex "p", VNonLit)])] /\
+  exists text, run_shexc_map BAlg (with_or false true base_rcfg) m_orc m_spec thr0 m_graph = inl text.
+Proof. flag_or ltac:(split; [vm_compute; reflexivity | eexists; vm_compute; reflexivity]). Qed.
 
 (** ... and no crash once empty shapes are kept *)
 Example m_choice_keep :
